@@ -252,3 +252,50 @@ def c20_6(ctx):
             ctx.fail(g, g.node, 'the default join lacks `%s`' % need, stmt='_join_dictable_with_defaults lacks ' + need)
     w = r.fn('_perdictable:perdictable.wrapped')
     expect_guards(ctx, w, [('getattr(self.function, _output, None) is None', 'return self._value_output(expiry=expiry, **inputs)', 'single-output functions')], where=w.body)
+
+
+@obligation('C20.7', 'TABLES (ordered dispatch by truth table) + DEF-USE (stores through the parameter)', '_perdictable:_item',
+            "the value column of a table input is chosen in a fixed order: a column named like the input wins, else the `data` column of a perdictable output (unless it is a key), else the single non-key column, else KeyError; "
+            'the selection works on copies (rename / column subset) - apart from the explicit `renames` it never writes a column into the caller\'s table, which the next call would read as the input',
+            axioms=())
+def c20_7(ctx):
+    f = ctx.repo.fn('_perdictable:_item')
+    d, key, on = f.params[0], f.params[1], f.params[2]
+    rows = [('%s in %s.keys()' % (key, d), '%s = %s[%s + [%s]]' % (d, d, on, key), 'a column named like the input'),
+            ('_data in %s.keys() and _data not in %s' % (d, on), '%s = %s.rename(**{_data: %s})[%s + [%s]]' % (d, d, key, on, key), 'the data column of a perdictable output'),
+            ('len(%s.keys()) == len(%s) + 1' % (d, on), 'renames = (%s.keys() - %s)[0]' % (d, on), 'the single non-key column')]
+    expect_guards(ctx, f, rows)
+    # the order of the dispatch: first match wins
+    chains = [s for s in ast.walk(f.node) if isinstance(s, ast.If) and N(s.test) == NS(rows[0][0])]
+    ctx.count(1, f.where())
+    if chains:
+        tests = [N(t) for t, b in if_chain(chains[0]) if t is not None]
+        want = [NS(r[0]) for r in rows]
+        if tests[:3] != want:
+            ctx.fail(f, chains[0], 'the value column is looked for in the order %s; expected: named like the input, then `data`, then the single remaining column' % tests[:3], witness='a table with both a column x and a column data, passed as x')
+        tail = [b for t, b in if_chain(chains[0]) if t is None]
+        if not tail or not any(isinstance(x, ast.Raise) and 'KeyError' in U(x) for x in tail[0]):
+            ctx.fail(f, chains[0], 'a table with no recognisable value column no longer raises KeyError')
+    else:
+        first = [s for s in ast.walk(f.node) if isinstance(s, ast.If) and N(s.test) in (NS(rows[1][0]), NS(rows[2][0]))]
+        if first:
+            ctx.fail(f, first[0], 'the column named like the input is no longer looked for FIRST: `%s` is tested before it' % U(first[0].test), witness='a table with both a column x and a column data, passed as x')
+    # stores through the parameter
+    allowed = {N(ast.parse(x).body[0]) for x in ('%s[%s] = %s[renames]' % (d, key, d), '%s[%s] = %s[renames[%s]]' % (d, key, d, key))}
+    n = 0
+    for s in ast.walk(f.node):
+        tg = []
+        if isinstance(s, (ast.Assign, ast.AugAssign, ast.Delete)):
+            tg = [t for t in (s.targets if not isinstance(s, ast.AugAssign) else [s.target]) if isinstance(t, (ast.Subscript, ast.Attribute))]
+        elif isinstance(s, ast.Expr) and isinstance(s.value, ast.Call) and isinstance(s.value.func, ast.Attribute) and s.value.func.attr in ('update', 'pop', 'setdefault', 'clear', '__setitem__', '__delitem__', 'popitem'):
+            tg = [s.value.func]
+        for t in tg:
+            root = t.value
+            while isinstance(root, (ast.Subscript, ast.Attribute)):
+                root = root.value
+            if isinstance(root, ast.Name) and root.id == d:
+                n += 1
+                if N(s) not in allowed:
+                    ctx.fail(f, s, "`%s` writes into the caller's table while choosing the value column: the table the caller keeps now carries a stale copy, which the next call reads as the column named like the input" % U(s)[:80],
+                             witness='f(x = t) twice, with t.data refreshed in between')
+    ctx.count(max(n, 1))
